@@ -18,6 +18,16 @@ func scenarioC19(rc *RunCtx) *Violation {
 	// replace its own inputs by bundles, and the next build's "inputs" would legitimately
 	// contain other modules' markers (false alarm found by the thorough tier, seed 101)
 	o.AllowOverwrite = false
+	if g.n(4) == 0 {
+		// external packages, sometimes for an engine without import(): the dynamic imports of
+		// external modules are then printed as require() calls, and the metafile must say so
+		o.Bundle = true
+		o.Packages = 1
+		if g.n(2) == 0 {
+			o.Target = 5
+		}
+		rc.Probe("profile_external_packages")
+	}
 	if o.Inject {
 		p.Extra["src/inject.js"] = "export let injected = 'INJ';\nconsole.log('inject');\n"
 	}
